@@ -32,6 +32,7 @@ type MUser struct {
 // World is one library-level simulation: a simulated disk, a configuration, one or more
 // real store.Dir instances on it, and the reference model.
 type World struct {
+	libYields bool // the next interleaving is between two callers of one instance: hasher statements are scheduling points
 	r      *Run
 	fs     *simfs.FS
 	cfg    Config
